@@ -254,3 +254,34 @@ func ZZ_C03_log_index_fits_int32_with_extreme_offsets() {
 	i := m.Index(v)
 	zzvAssert("index-fits-int32", zzvAnd(i >= math.MinInt32, i <= math.MaxInt32))
 }
+
+// concrete grid (interpreter-executed, no solver decision; stated as such): mappings REBUILT WITH
+// NON-DEFAULT OFFSETS, as decoders build them, still map a value to a bin whose representative is within
+// the accuracy, Index and LowerBound agree, and LowerBound increases
+func ZZ_C03_accuracy_grid_with_offsets() {
+	zzvBound("offset grid", "concrete grid only: three kinds x alpha {0.01, 0.05, 0.2} x offsets {1, -2.5, 35.0028, 1000.5} x 9 values; executed by the interpreter on the real code")
+	zzvCover("grid")
+	for _, a := range []float64{0.01, 0.05, 0.2} {
+		g1, _ := NewLogarithmicMapping(a)
+		g2, _ := NewLinearlyInterpolatedMapping(a)
+		g3, _ := NewCubicallyInterpolatedMapping(a)
+		for _, off := range []float64{1, -2.5, 35.0028, 1000.5} {
+			m1, _ := NewLogarithmicMappingWithGamma(g1.gamma, off)
+			m2, _ := NewLinearlyInterpolatedMappingWithGamma(g2.gamma, off)
+			m3, _ := NewCubicallyInterpolatedMappingWithGamma(g3.gamma, off)
+			for _, m := range []IndexMapping{m1, m2, m3} {
+				for _, v := range []float64{1, 1.5, 0.5, 0.7071, 3.999, 1e-3, 12345.678, 1e-200, 1e200} {
+					i := m.Index(v)
+					x := m.Value(i)
+					zzvAssert("offset-grid-accuracy", x-v <= (a+zzTol)*v && v-x <= (a+zzTol)*v)
+					zzvAssert("offset-grid-containment", m.LowerBound(i) <= v*(1+1e-12) && v <= m.LowerBound(i+1)*(1+1e-12))
+					zzvAssert("offset-grid-lower-bound-increases", m.LowerBound(i) < m.LowerBound(i+1))
+				}
+			}
+		}
+	}
+}
+
+// C01 is a composition through the mapping contract; the part of that contract that concerns rebuilt
+// mappings (non-default offsets) is re-checked under C01 as well
+func ZZ_C01_mapping_contract_grid_with_offsets() { ZZ_C03_accuracy_grid_with_offsets() }
